@@ -52,7 +52,16 @@ namespace awsim {
     return std::static_pointer_cast<T>(o.p);
   }
 
-  void set_error(const char* cls, const std::string& msg);
+  void set_error(const char* cls, const std::string& msg);   // also suspends the allocation seam (see awsim_core.cpp)
+  void alloc_suspend();        // no further simulated allocation failure until the seam is armed again
+  // Harness bookkeeping whose allocations depend on what the process did before (growth of the handle table, the
+  // first interning of a name, the seam log) must not count towards "the k-th allocation of this call", or the same
+  // case would fail at different points in different worker processes: such code runs under an AllocPause.
+  extern long alloc_pause_depth;
+  struct AllocPause {
+    AllocPause() { alloc_pause_depth++; }
+    ~AllocPause() { alloc_pause_depth--; }
+  };
   void clear_error();
 
   // minimal JSON string escaping for the text dumps
@@ -64,13 +73,13 @@ namespace awsim {
 #define AWS_TRY awsim::clear_error(); try {
 #define AWS_CATCH(ret)                                                              \
   }                                                                                 \
-  catch (awsim::HarnessError& e)   { awsim::set_error("harness", e.what()); return ret; }          \
-  catch (awsim::WalkError& e)      { awsim::set_error("walk", e.what()); return ret; }             \
-  catch (std::invalid_argument& e) { awsim::set_error("invalid_argument", e.what()); return ret; } \
-  catch (std::out_of_range& e)     { awsim::set_error("out_of_range", e.what()); return ret; }     \
-  catch (std::runtime_error& e)    { awsim::set_error("runtime_error", e.what()); return ret; }    \
-  catch (std::bad_alloc& e)        { awsim::set_error("bad_alloc", e.what()); return ret; }        \
-  catch (std::exception& e)        { awsim::set_error("std", e.what()); return ret; }              \
-  catch (...)                      { awsim::set_error("nonstd", "non-std exception"); return ret; }
+  catch (awsim::HarnessError& e)   { awsim::alloc_suspend(); awsim::set_error("harness", e.what()); return ret; }          \
+  catch (awsim::WalkError& e)      { awsim::alloc_suspend(); awsim::set_error("walk", e.what()); return ret; }             \
+  catch (std::invalid_argument& e) { awsim::alloc_suspend(); awsim::set_error("invalid_argument", e.what()); return ret; } \
+  catch (std::out_of_range& e)     { awsim::alloc_suspend(); awsim::set_error("out_of_range", e.what()); return ret; }     \
+  catch (std::runtime_error& e)    { awsim::alloc_suspend(); awsim::set_error("runtime_error", e.what()); return ret; }    \
+  catch (std::bad_alloc& e)        { awsim::alloc_suspend(); awsim::set_error("bad_alloc", e.what()); return ret; }        \
+  catch (std::exception& e)        { awsim::alloc_suspend(); awsim::set_error("std", e.what()); return ret; }              \
+  catch (...)                      { awsim::alloc_suspend(); awsim::set_error("nonstd", "non-std exception"); return ret; }
 
 #endif
